@@ -154,7 +154,6 @@ def run(rep: vk.Report):
             if r.random() < 0.3:
                 r.shuffle(V)
         names = [v.name for v in V]
-        C._compile_cached.cache_clear()
         with warnings.catch_warnings():
             warnings.simplefilter("ignore")
             try:
